@@ -1,6 +1,7 @@
 import SynKitModel.Petri
 import SynKitProofs.PetriLemmas
 import SynKitProofs.PetriLevel
+import SynKitProofs.BipGraphViewsLemmas
 import Mathlib.Data.Set.Card
 /-!
 # C20 — siphons, traps and pathway realizability match their Petri-net definitions
@@ -236,3 +237,151 @@ example : ∀ seq : List String, seq.length ≤ 2 → validCertificate exPath se
     (by decide) false true (by decide)).2
 
 end SynKit.Petri
+
+/-! ## C20 on a bipartite NetworkX graph (the graph entry path of `find_siphons` / `find_traps`)
+
+Model: `SynKitModel/BipGraphViews.lean` (on top of `SynKitModel/BipGraph.lean`); lemmas:
+`SynKitProofs/BipGraphViewsLemmas.lean`. `analysisNet g = viewNet (netOfGraph g)` is the network the
+graph describes, species sorted by label (the index sets of the predicates refer to that order),
+reactions in `G.nodes` order. Hypothesis: `BipGraph.WF` (node ids distinct, species labels
+distinct, coefficients non-negative) and nothing else. Non-negativity is needed: the code tests
+`stoich > 0` arc by arc, the described network carries the SUM of parallel arcs. -/
+namespace SynKit.BipGraph
+open SynKit.Stoich SynKit.Petri
+
+/-- **C20, graph input: `_is_siphon_indices` read off the graph is the closure predicate of the
+described network.** For a well-formed bipartite graph of any of the four NetworkX classes, arcs
+written in either direction, parallel arcs, `stoich` possibly missing, and every index set `S`. -/
+theorem graphSiphonPred_eq (g : BipGraph) (wf : WF g) (S : List Nat) :
+    graphSiphonPred g S = isSiphon (analysisNet g) S := graphSiphonPred_eq' g wf S
+
+/-- **C20, graph input: `_is_trap_indices` likewise.** -/
+theorem graphTrapPred_eq (g : BipGraph) (wf : WF g) (S : List Nat) :
+    graphTrapPred g S = isTrap (analysisNet g) S := graphTrapPred_eq' g wf S
+
+/-- **C20, graph input: `find_siphons` / `find_traps`.** The subset search over the graph
+predicates returns the index sets (in the same order) and the label sets the network-level search
+returns on the described network. -/
+theorem graphFindSiphons_eq (g : BipGraph) (wf : WF g) (maxSize : Option Nat) :
+    graphFindSiphonsIdx g maxSize = findSiphonsIdx (analysisNet g) maxSize ∧
+    graphFindTrapsIdx g maxSize = findTrapsIdx (analysisNet g) maxSize ∧
+    graphFindSiphons g maxSize = findSiphons (analysisNet g) maxSize ∧
+    graphFindTraps g maxSize = findTraps (analysisNet g) maxSize := graphFind_eq' g wf maxSize
+
+/-- **C20, graph input: `siphons_spec` / `traps_spec` transferred.** What `find_siphons(G, max_size)`
+reports for a well-formed graph are exactly the index sets of the inclusion-minimal siphons of the
+described network with at most `max_size` members; traps likewise; and the graph-level predicates
+are the defining ones (`closure_predicates_spec`). -/
+theorem graphSiphonsTraps_spec (g : BipGraph) (wf : WF g) (maxSize : Option Nat) (X : List Nat) :
+    (X ∈ graphFindSiphonsIdx g maxSize ↔
+      MinimalWrt (IsSiphon (analysisNet g)) (analysisNet g).nSpecies X ∧
+        X.length ≤ maxSize.getD (analysisNet g).nSpecies) ∧
+    (X ∈ graphFindTrapsIdx g maxSize ↔
+      MinimalWrt (IsTrap (analysisNet g)) (analysisNet g).nSpecies X ∧
+        X.length ≤ maxSize.getD (analysisNet g).nSpecies) ∧
+    (graphSiphonPred g X = true ↔ IsSiphon (analysisNet g) X) ∧
+    (graphTrapPred g X = true ↔ IsTrap (analysisNet g) X) := by
+  obtain ⟨h1, h2, _, _⟩ := graphFindSiphons_eq g wf maxSize
+  rw [h1, h2, graphSiphonPred_eq g wf, graphTrapPred_eq g wf]
+  exact ⟨siphons_spec _ _ _, traps_spec _ _ _, (closure_predicates_spec _ _).1, (closure_predicates_spec _ _).2⟩
+
+/-- **C20, graph input: direction of the arcs is irrelevant.** Hypotheses as for
+`graphS_orientation_invariant` (C17) plus `IdsDistinct`; coefficients may have any sign. -/
+theorem graphStructure_orientation_invariant (g g' : BipGraph) (hid : IdsDistinct g)
+    (hn : g'.nodes = g.nodes) (hm : g'.multi = g.multi) (ha : Reoriented g.arcs g'.arcs)
+    (hs : g.multi = true ∨ (ArcsSimple g ∧ ArcsSimple g')) :
+    (∀ S, graphSiphonPred g' S = graphSiphonPred g S) ∧ (∀ S, graphTrapPred g' S = graphTrapPred g S) ∧
+    (∀ ms, graphFindSiphons g' ms = graphFindSiphons g ms) ∧ (∀ ms, graphFindTraps g' ms = graphFindTraps g ms) :=
+  structure_congr g g' hid (sameReading_orientation g g' hn hm ha hs)
+
+/-- **C20, graph input: undirected = directed.** An undirected graph and the directed graph of
+the same multiplicity class holding the same edges, each written in an arbitrary direction, have
+the same siphon / trap predicates and the same reported families. -/
+theorem graphStructure_undirected_eq_directed (g g' : BipGraph) (hid : IdsDistinct g)
+    (hn : g'.nodes = g.nodes) (hd : g.directed = false) (hd' : g'.directed = true)
+    (hm : g'.multi = g.multi) (ha : Reoriented g.arcs g'.arcs) (hs : g.multi = true ∨ ArcsSimple g) :
+    (∀ S, graphSiphonPred g' S = graphSiphonPred g S) ∧ (∀ S, graphTrapPred g' S = graphTrapPred g S) ∧
+    (∀ ms, graphFindSiphons g' ms = graphFindSiphons g ms) ∧ (∀ ms, graphFindTraps g' ms = graphFindTraps g ms) :=
+  structure_congr g g' hid (sameReading_undirected g g' hn hd hd' hm ha hs)
+
+/-- **C20, graph input: a missing `stoich` is 1** (and 1 > 0: the arc counts). -/
+theorem graphStructure_missing_stoich (g g' : BipGraph) (hid : IdsDistinct g)
+    (hn : g'.nodes = g.nodes) (hd : g'.directed = g.directed) (hm : g'.multi = g.multi)
+    (ha : g'.arcs = g.arcs.map BArc.fillStoich) (hs : g.multi = true ∨ ArcsSimple g) :
+    (∀ S, graphSiphonPred g' S = graphSiphonPred g S) ∧ (∀ S, graphTrapPred g' S = graphTrapPred g S) ∧
+    (∀ ms, graphFindSiphons g' ms = graphFindSiphons g ms) ∧ (∀ ms, graphFindTraps g' ms = graphFindTraps g ms) :=
+  structure_congr g g' hid (sameReading_fill g g' hn hd hm ha hs)
+
+/-! ### Non-vacuity: `A ⇌ b, b → C` (the F17 network) written as a graph
+
+Reaction nodes first and out of order, species not in label order (`b` has no label and sorts
+after `C`); typing by `kind` or by the flag; three arcs have no `stoich`. -/
+
+def c20Nodes : List BNode :=
+  [⟨"r3", some "reaction", none, none⟩, ⟨"c", some "species", some 1, some "C"⟩,
+   ⟨"r1", none, some 1, some "fwd"⟩, ⟨"b", none, some 0, none⟩, ⟨"r2", some "reaction", none, none⟩,
+   ⟨"a", some "species", none, some "A"⟩]
+
+def c20Arcs : List BArc :=
+  [⟨"a", "r1", some "reactant", none⟩, ⟨"r1", "b", some "product", some 1⟩,
+   ⟨"b", "r2", some "reactant", some 1⟩, ⟨"r2", "a", some "product", none⟩,
+   ⟨"b", "r3", some "reactant", none⟩, ⟨"r3", "c", some "product", some 2⟩]
+
+/-- the first, second and last arc written the other way round -/
+def c20ArcsFlipped : List BArc :=
+  [⟨"r1", "a", some "reactant", none⟩, ⟨"b", "r1", some "product", some 1⟩,
+   ⟨"b", "r2", some "reactant", some 1⟩, ⟨"r2", "a", some "product", none⟩,
+   ⟨"b", "r3", some "reactant", none⟩, ⟨"c", "r3", some "product", some 2⟩]
+
+def c20Di : BipGraph := ⟨c20Nodes, c20Arcs, true, false⟩
+def c20DiFlipped : BipGraph := ⟨c20Nodes, c20ArcsFlipped, true, false⟩
+def c20Graph : BipGraph := ⟨c20Nodes, c20ArcsFlipped, false, false⟩
+def c20Multi : BipGraph := ⟨c20Nodes, c20ArcsFlipped, false, true⟩
+
+theorem c20Reoriented : Reoriented c20Arcs c20ArcsFlipped :=
+  .flip _ (.flip _ (.keep _ (.keep _ (.keep _ (.flip _ .nil)))))
+
+/-- (b): the hypothesis holds on all four spellings. -/
+example : WF c20Di ∧ WF c20DiFlipped ∧ WF c20Graph ∧ WF c20Multi :=
+  ⟨wf_of_wfCoreB _ (by decide), wf_of_wfCoreB _ (by decide), wf_of_wfCoreB _ (by decide),
+    wf_of_wfCoreB _ (by decide)⟩
+
+/-- (b): both sides are the expected values — species order `A, C, b`; `{A, b}` = `[0, 2]` is a
+siphon and no trap, `{C}` = `[1]` a trap and no siphon; the families are those of `exF17`. -/
+example : (analysisNet c20Graph).species = ["A", "C", "b"] ∧
+    graphSiphonPred c20Graph [0, 2] = true ∧ isSiphon (analysisNet c20Graph) [0, 2] = true ∧
+    graphTrapPred c20Graph [0, 2] = false ∧ isTrap (analysisNet c20Graph) [0, 2] = false ∧
+    graphTrapPred c20Graph [1] = true ∧ graphSiphonPred c20Graph [1] = false ∧
+    graphSiphonPred c20Graph [] = false ∧
+    graphFindSiphons c20Graph none = [["A", "b"]] ∧ findSiphons (analysisNet c20Graph) none = [["A", "b"]] ∧
+    graphFindTraps c20Graph none = [["C"]] ∧ findTraps (analysisNet c20Graph) none = [["C"]] ∧
+    graphFindSiphons c20Di (some 1) = [] := by decide
+
+/-- `graphSiphonsTraps_spec` is used with a true left-hand side. -/
+example : MinimalWrt (IsSiphon (analysisNet c20Multi)) 3 [0, 2] :=
+  ((graphSiphonsTraps_spec c20Multi (wf_of_wfCoreB _ (by decide)) none [0, 2]).1.1 (by decide)).1
+
+/-- (c), orientation: hypotheses satisfiable on the `DiGraph`, both readings as expected. -/
+example : IdsDistinct c20Di ∧ c20DiFlipped.nodes = c20Di.nodes ∧ Reoriented c20Di.arcs c20DiFlipped.arcs ∧
+    ArcsSimple c20Di ∧ ArcsSimple c20DiFlipped ∧
+    graphFindSiphons c20DiFlipped none = [["A", "b"]] ∧ graphFindSiphons c20Di none = [["A", "b"]] ∧
+    graphFindTraps c20DiFlipped none = [["C"]] ∧ graphFindTraps c20Di none = [["C"]] :=
+  ⟨by decide, rfl, c20Reoriented, by decide, by decide, by decide, by decide, by decide, by decide⟩
+
+/-- (c), undirected = directed, and missing `stoich`: hypotheses hold, readings agree. -/
+example : IdsDistinct c20Graph ∧ ArcsSimple c20Graph ∧ c20Graph.directed = false ∧
+    graphFindTraps c20Multi none = graphFindTraps c20Di none ∧
+    c20Multi.arcs.map BArc.fillStoich ≠ c20Multi.arcs ∧
+    graphFindSiphons ⟨c20Nodes, c20Multi.arcs.map BArc.fillStoich, false, true⟩ none =
+      graphFindSiphons c20Multi none := by decide
+
+/-- Non-negativity of the coefficients is necessary for (b): two parallel product arcs `+1`, `−1`
+from `r` to `a` — the code sees a positive product arc into `{a}`, the described network carries
+the sum `0`. -/
+example : graphSiphonPred ⟨[⟨"a", some "species", none, none⟩, ⟨"r", some "reaction", none, none⟩],
+      [⟨"r", "a", some "product", some 1⟩, ⟨"r", "a", some "product", some (-1)⟩], true, true⟩ [0] = false ∧
+    isSiphon (analysisNet ⟨[⟨"a", some "species", none, none⟩, ⟨"r", some "reaction", none, none⟩],
+      [⟨"r", "a", some "product", some 1⟩, ⟨"r", "a", some "product", some (-1)⟩], true, true⟩) [0] = true := by
+  decide
+
+end SynKit.BipGraph
